@@ -3,6 +3,7 @@ CONSTANTS
   MaxReq = 2
   Pool = "tiny"
   WithBad = TRUE
+  KeepStale = FALSE
 INVARIANT RoundTrip
 INVARIANT StatusByMode
 INVARIANT Emit
